@@ -7,7 +7,7 @@ decrypted by the reference cipher under the independently derived key and TraceS
 plaintext to decode to exactly the scoped PDU of the request followed by less than one block of padding; agent
 replies encrypted the same way must be delivered with their exact content."""
 import json
-from vlib import env, tlc, trace, sesscheck, scripts, v3hist, rawdrv
+from vlib import env, tlc, trace, sesscheck, scripts, v3hist, rawdrv, agent as ag
 from vlib.report import Check
 from vlib.env import ToolError, SEED
 
@@ -86,6 +86,23 @@ def run_common(chk, tier, props, label):
                 a, b = v3hist.run_history(rec, std[cn], s, variant=si)
                 runs.append((a, b, dict(cfgname=cn, script=s)))
                 chk.case((cn, json.dumps(s, sort_keys=True)), nontrivial=sum(1 for x in s if x["a"] == "send") >= 2)
+    # scoped-PDU length sweep: every residue modulo the cipher block (padding arithmetic), answered and unanswered
+    for cn in ("v3-md5-des", "v3-sha1-aes", "v3-sha1-des", "v3-md5-aes"):
+        cfg = std[cn]
+        a = rec.n
+        sess = rawdrv.RawSession(rec, cfg)
+        agent = ag.Agent(engine=cfg.engine)
+        for k in range(0, 40 if not thorough else 140):
+            # one more arc (1 octet) per step, then multi-octet arcs
+            oid = "1.3.6.1" + "".join(".%d" % ((j * 7) % 100 + 1) for j in range(k % 35)) + (".300" * (k // 35))
+            w, exc = sess.send("get", [oid])
+            if w is not None and k % 3 == 0:
+                req = ag.Request(cfg, w)
+                sess.inject(agent.reply(cfg, req, [(bytes(n), ("int", k)) for n in req.names]))
+                sess.recv("get")
+        sess.close()
+        runs.append((a, rec.n, dict(cfgname=cn, script=[{"a": "length-sweep"}])))
+        chk.case((cn, "length-sweep"))
     # a long run of unanswered requests on one session (the private buffer must not accumulate)
     for cn in ("v3-md5-des", "v3-sha1-aes"):
         s = [{"a": "send", "n": 5}] * (200 if thorough else 90)
